@@ -15,7 +15,7 @@ RULE = (
 
 def strategy():
     return gen_prog.program(
-        weights={"PUT": 14, "PUT-invalid": 1, "POST": 1, "DELETE": 2, "DELETE-coll": 0, "MKCOL": 1, "PROPPATCH": 3, "GET": 1, "PROPFIND": 1, "REPORT": 1, "RESTART": 3},
+        weights={"PUT": 14, "PUT-invalid": 1, "POST": 1, "DELETE": 2, "DELETE-coll": 0, "MKCOL": 1, "PROPPATCH": 3, "GET": 1, "PROPFIND": 1, "REPORT": 1, "RECREATE": 1, "RESTART": 3},
         min_steps=8,
         max_steps=22,
         cond_rate=0,
